@@ -81,7 +81,16 @@ def filter_scenarios(prog, c):
         Sg = Sym(prog, g)
         r = fold(Sg.local(0))
         m = re.fullmatch(r"c:([01])", r)
-        rel = any(cname(prog, t) == "msi::internal::value::ValueRef::remove" for b, t in g.calls())
+        REM = "msi::internal::value::ValueRef::remove"
+        rel = any(cname(prog, t) == REM for b, t in g.calls())
+        # ... or inside a closure built on a live path and handed to for_each (`row.iter().for_each(|cell| cell.remove(pool))`)
+        for bl in g.blocks:
+            if bl["cleanup"]:
+                continue
+            for st in bl["stmts"]:
+                cid = st["rhs"].get("cid") if st["rhs"]["rv"] == "agg" else None
+                if cid in prog.fns and any(cname(prog, t) == REM for b, t in prog.fns[cid].calls()):
+                    rel = True
         scen[name] = (int(m.group(1)) if m else None, rel, r)
     return scen
 
